@@ -33,7 +33,8 @@ def run(ctx, report):
     report.section("alignment tables", alignment_tables, ctx, report, folder)
     report.section("attribute names", attribute_names, ctx, report)
     report.section("region creation", region_creation, ctx, report)
-    report.section("WebVTT arithmetic", webvtt_arithmetic, ctx, report, folder)
+    report.structural_section("WebVTT arithmetic (symbolic form)", "R-GRID on the layout grid (webvtt_layout_fold)",
+                              webvtt_arithmetic, ctx, report, folder)
     report.section("verbatim cue settings", verbatim, ctx, report, folder)
     report.section("fallback order", fallback, ctx, report)
     report.section("default before use", default_before_use, ctx, report)
